@@ -2465,3 +2465,15 @@ breaker('C17', 'blobcopy-abort-only-for-exception', 'C17.R14', BLOBPY,
         '''        except POSKeyError:
             destination.tpc_abort(trans)
             raise''')
+
+# ---- F61 -------------------------------------------------------------------
+breaker('C18', 'verify-ignores-chain-membership', 'C18.R10', RZPY, 'do_verify',
+        '''    for filename in repofiles:
+        if filename not in recorded:''',
+        '''    for filename in repofiles[:1]:
+        if filename not in recorded:''')
+twin('C18', 'verify-chain-membership-as-set', RZPY, 'do_verify',
+     '''    for filename in repofiles:
+        if filename not in recorded:''',
+     '''    for filename in sorted(set(repofiles) - recorded):
+        if True:''')
